@@ -42,6 +42,7 @@ type Node struct {
 	neverBoot  bool // pair runs: the special node is silent (never started)
 
 	subscribed      bool
+	hidePool        bool // the verified pool reads empty (the notified transaction was evicted)
 	st              *Step
 	crashing        bool
 	crashAfterSends int
@@ -696,7 +697,7 @@ func (n *Node) cbGetVerified() []dbft.Transaction[Hash] {
 	max := n.s.sc.MaxTxPerBlock
 	out := make([]dbft.Transaction[Hash], 0, max)
 	var hs []Hash
-	if max > 0 {
+	if max > 0 && !n.hidePool {
 		for _, tx := range sortedHashes(n.pool) {
 			if tx.Invalid && !n.s.sc.PoolHoldsInvalid {
 				continue // the verified pool normally holds no invalid transactions
@@ -902,6 +903,9 @@ func (n *Node) syncApply(blks []*Block) {
 }
 
 func (n *Node) txArrive(tx *Tx) {
+	if n.s.deadTx[tx.Hash()] {
+		return
+	}
 	// a transaction already in the chain never re-enters the pool
 	for _, b := range n.ledger {
 		for _, h := range b.TxHashes {
@@ -917,6 +921,22 @@ func (n *Node) txArrive(tx *Tx) {
 	n.everHad[tx.Hash()] = true
 	if n.subscribed && n.d != nil {
 		n.subscribed = false
-		n.call(&Step{Op: OpNewTx}, func() { n.d.OnNewTransaction() })
+		st := &Step{Op: OpNewTx}
+		if sc := n.s.sc; sc.EvictPM > 0 && len(n.pool) == 1 && n.d.IsPrimary() && n.d.VerifState().TxSubscriptionOn && n.s.tape.Chance(n.stream(SApp), sc.EvictPM, 1000) {
+			// the pool notifies, and the transaction is gone (replaced, expired, conflicting)
+			// by the time the library asks for the verified ones
+			n.s.fault("notified_transaction_evicted")
+			st.Evicted = true
+			n.hidePool = true
+		}
+		n.call(st, func() { n.d.OnNewTransaction() })
+		if st.Evicted {
+			// ... gone everywhere (the network stays fault-free: all pools agree)
+			n.hidePool = false
+			n.s.deadTx[tx.Hash()] = true
+			for _, m := range n.s.nodes {
+				delete(m.pool, tx.Hash())
+			}
+		}
 	}
 }
